@@ -198,7 +198,10 @@ class Interp:
         for op, c in zip(n.ops, n.comparators):
             b = self.ev(c, env)
             t = type(op)
-            if t is ast.In:
+            if t in (ast.In, ast.NotIn) and isinstance(b, (tuple, list)) and z3.is_expr(a):
+                r = z3.Or(*[a == x for x in b]) if b else z3.BoolVal(False)
+                out.append(r if t is ast.In else z3.Not(r))
+            elif t is ast.In:
                 out.append(b.__contains__(a))
             elif t is ast.NotIn:
                 r = b.__contains__(a)
